@@ -376,6 +376,9 @@ impl Engine {
         for (t, a) in take_misaligned() {
             out.flag(format!("C04: a component of type {t} was dropped in place at the misaligned address {a:#x}"));
         }
+        for n in take_notes() {
+            out.flag(n);
+        }
         let d = sorted_drops();
         self.ledger.dropped(&d, &self.sizes.clone(), out);
         obs.push(code);
@@ -476,8 +479,11 @@ impl Engine {
         for (k, &t) in types.iter().enumerate() {
             with_comp!(t, C, {
                 let mut w = b.writer::<C>().unwrap();
-                for row in rows {
-                    let _ = w.push(C::new(row[k]));
+                for (i, row) in rows.iter().enumerate() {
+                    // the first writer of a type has room for every row (a repeated type finds its column full)
+                    if w.push(C::new(row[k])).is_err() && !types[..k].contains(&t) {
+                        note(format!("C12: the writer of column {t} refused value {i} of {} although the column was empty before", rows.len()));
+                    }
                 }
             });
         }
